@@ -72,6 +72,11 @@ func NewSimpleURL(u *url.URL) (SimpleURL, error) {
 				}
 			}
 		case name == "filter":
+			// An empty value is ignored like for the other parameters.
+			if len(values.Get(name)) == 0 {
+				continue
+			}
+
 			var err error
 			if values.Get(name)[0] != '{' {
 				// It should be a label
